@@ -10,6 +10,71 @@ FAMILY = dict(
 REQUEST = "fefd0000000001ffffff"
 
 
+def _cstr(d, i):
+    j = d.index(b"\x00", i)
+    return d[i:j], j + 1
+
+
+def _parse_reply(d):
+    """offsets of the two tables of a reply: [(start of marker, count, start of heads, end of heads incl. terminator,
+    end of table)], or None when the datagram is not in the format"""
+    try:
+        i = 5
+        while True:
+            k, i = _cstr(d, i)
+            if not k:
+                break
+            _, i = _cstr(d, i)
+        tables = []
+        for _ in range(2):
+            start = i
+            if d[i] != 0:
+                return None
+            count = d[i + 1]
+            i += 2
+            hstart, ncols = i, 0
+            while True:
+                h, i = _cstr(d, i)
+                if not h:
+                    break
+                ncols += 1
+            hend = i
+            for _ in range(count * ncols):
+                _, i = _cstr(d, i)
+            tables.append((start, count, hstart, hend, i))
+        return tables if i == len(d) else None
+    except (ValueError, IndexError):
+        return None
+
+
+def decode_variants(valid, rnd):
+    """C04: a table without rows may come without its column heads too (count 0, then the empty head that ends the
+    list): the same exchange with the heads of its zero-row tables left out.  Response and requests unchanged."""
+    import copy
+    if valid.notwf or not valid.want.startswith("OK"):
+        return []
+    c = valid.case()
+    if not c.script or c.script[0] == "X" or not c.script[0] or c.script[0][0] is None:
+        return []
+    d = c.script[0][0]
+    tables = _parse_reply(d)
+    if tables is None or all(t[1] != 0 or t[3] - t[2] == 1 for t in tables):
+        return []
+    new, cut = d, 0
+    for (start, count, hstart, hend, end) in tables:
+        if count == 0 and hend - hstart > 1 and rnd.random() < 0.8:
+            new = new[:hstart - cut] + b"\x00" + new[hend - cut:]
+            cut += hend - hstart - 1
+    if new == d:
+        return []
+    c.script[0][0] = new
+    v = copy.copy(valid)
+    v.tags = dict(valid.tags)
+    v.id = valid.id + "h"
+    v.line = c.line(v.id)
+    return [v]
+
+
 # ---- C10: the request/response exchange is the one retried unit
 
 def c10_eligible(valid):
